@@ -30,6 +30,8 @@ pub enum Action {
 	ReleaseLink(usize, usize),
 	/// The node's ChannelManager is not written any more until released ("however far the manager lags").
 	HoldManager(usize),
+	/// the node's disk becomes slow: no monitor-update write completes from now on (until a restart)
+	HoldCompletions(usize),
 	ReleaseManager(usize),
 	Mine,
 	/// Mine k empty blocks and tell every node.
@@ -63,6 +65,7 @@ pub fn encode_action(a: &Action) -> String {
 		Action::HoldLink(f, t) => format!("holdlk:{}>{}", f, t),
 		Action::ReleaseLink(f, t) => format!("rellk:{}>{}", f, t),
 		Action::HoldManager(n) => format!("holdmgr:{}", n),
+		Action::HoldCompletions(n) => format!("holddone:{}", n),
 		Action::ReleaseManager(n) => format!("relmgr:{}", n),
 		Action::Mine => "mine".to_string(),
 		Action::MineEmpty(k) => format!("mineempty:{}", k),
@@ -118,6 +121,7 @@ pub fn decode_action(s: &str) -> Option<Action> {
 			Action::ReleaseLink(*v.get(0)? as usize, *v.get(1)? as usize)
 		},
 		"holdmgr" => Action::HoldManager(rest.parse().ok()?),
+		"holddone" => Action::HoldCompletions(rest.parse().ok()?),
 		"relmgr" => Action::ReleaseManager(rest.parse().ok()?),
 		"mine" => Action::Mine,
 		"mineempty" => Action::MineEmpty(rest.parse().ok()?),
@@ -149,6 +153,10 @@ pub enum Op {
 	FailHeld { pay: usize },
 	/// Send payment number `pay` again with the same payment id over `hops`, if the sender still lists it as pending.
 	Resend { pay: usize, hops: Vec<(usize, usize)> },
+	/// `from` opens a channel to `to` (the opening flow itself is then explored like any other)
+	Open { from: usize, to: usize },
+	/// The chain confirms the funding transaction (6 blocks) - if the funder has broadcast it by now
+	ConfirmFunding,
 }
 
 #[derive(Clone, Copy, Debug, PartialEq, Eq)]
@@ -188,6 +196,13 @@ pub struct Deviations {
 	pub hold_events: Option<u32>,
 	pub hold_link: Option<u32>,
 	pub hold_manager: Option<u32>,
+	pub hold_completions: Option<u32>,
+	/// offer HoldLink only when the next message on that link is a commitment_signed or revoke_and_ack
+	pub hold_link_before_commit_msgs_only: bool,
+	/// offer Crash only once the scenario's operations are done (on-chain settling phase)
+	pub crash_after_finish_only: bool,
+	/// how many of the admissible durable states a crash may restart from (oldest first); default 8
+	pub crash_choices_max: Option<u32>,
 	/// restrict HoldLink to this directed link / crash-inside to block connections of the settling phase
 	pub hold_link_only: Option<(usize, usize)>,
 	pub crash_inside_settle_only: bool,
@@ -210,6 +225,10 @@ impl Default for Deviations {
 			hold_events: None,
 			hold_link: None,
 			hold_manager: None,
+			hold_completions: None,
+			hold_link_before_commit_msgs_only: false,
+			crash_after_finish_only: false,
+			crash_choices_max: None,
 			hold_link_only: None,
 			crash_inside_settle_only: false,
 			early_release: Some(0),
@@ -256,6 +275,8 @@ pub struct WorldSys {
 	pub holds_done: u32,
 	pub max_holds: u32,
 	pub held_manager: Vec<bool>,
+	pub held_completions: Vec<bool>,
+	pub completion_holds_done: u32,
 	/// scenario option: nodes listed in `held_events` at start keep their events unhandled until the
 	/// on-chain settling is over (the user is slow to call process_pending_events)
 	pub events_held_through_settle: bool,
@@ -307,6 +328,8 @@ impl WorldSys {
 			holds_done: 0,
 			max_holds: 1,
 			held_manager: vec![false; n],
+			held_completions: vec![false; n],
+			completion_holds_done: 0,
 			events_held_through_settle: false,
 			link_holds_done: 0,
 			mgr_holds_done: 0,
@@ -346,6 +369,9 @@ impl WorldSys {
 		}
 		// monitor update completions, oldest first per node
 		for i in 0..n {
+			if self.held_completions[i] {
+				continue;
+			}
 			let outs = self.w.nodes[i].persist.outstanding();
 			for (ci, (cid, id)) in outs.iter().enumerate() {
 				let _ = cid;
@@ -392,6 +418,19 @@ impl WorldSys {
 				v.push(Action::MineEmpty(self.jump_left.max(101)));
 			}
 		}
+		// a slow disk that never crashed finally catches up when nothing else is left to do
+		if v.is_empty() && self.finished {
+			for i in 0..n {
+				if self.held_completions[i] && !self.w.nodes[i].persist.outstanding().is_empty() {
+					self.held_completions[i] = false;
+					let outs = self.w.nodes[i].persist.outstanding();
+					for (ci, (_cid, id)) in outs.iter().enumerate() {
+						v.push(Action::Complete(i, ci, *id));
+					}
+					break;
+				}
+			}
+		}
 		// a held manager stays held through the on-chain settling phase (the lag is arbitrary); it is
 		// written only when nothing else is left to do
 		if v.is_empty() && self.finished && self.events_held_through_settle {
@@ -429,8 +468,20 @@ impl WorldSys {
 		let op = self.ops[i].clone();
 		match op {
 			Op::Send { from, hops, amount_msat, policy } => {
-				let hops: Vec<(usize, ChannelId)> = hops.iter().map(|(n, c)| (*n, self.chans[*c])).collect();
-				self.w.send_payment(from, &hops, amount_msat, policy);
+				// channels opened by an explored `Open` become known once they exist
+				if self.chans.is_empty() {
+					for c in self.w.nodes[0].cm.list_channels() {
+						if c.is_usable && !self.chans.contains(&c.channel_id) {
+							self.chans.push(c.channel_id);
+						}
+					}
+				}
+				if hops.iter().any(|(_, c)| *c >= self.chans.len()) {
+					self.w.obs.push(Obs::Api { node: from, what: "send-skipped".into(), ok: true, detail: "channel not open".into() });
+				} else {
+					let hops: Vec<(usize, ChannelId)> = hops.iter().map(|(n, c)| (*n, self.chans[*c])).collect();
+					self.w.send_payment(from, &hops, amount_msat, policy);
+				}
 			},
 			Op::SetFee { node, rate } => {
 				*self.w.nodes[node].fee.sat_per_kw.lock().unwrap() = rate;
@@ -529,6 +580,27 @@ impl WorldSys {
 					}
 				}
 			},
+			Op::Open { from, to } => {
+				let tid = self.w.nodes[to].id;
+				let r = self.w.nodes[from].cm.create_channel(tid, 1_000_000, 400_000_000, 42, None, None);
+				self.w.obs.push(Obs::Api { node: from, what: "create_channel".into(), ok: r.is_ok(), detail: format!("{:?}", r.map(|_| ())) });
+				self.w.pump();
+			},
+			Op::ConfirmFunding => {
+				let broadcast = self.w.obs.iter().any(|o| matches!(o, Obs::Broadcast { b, .. } if b.kinds.iter().any(|k| k == "Funding")));
+				match (broadcast, self.w.funding_txs.last().cloned()) {
+					(true, Some(ftx)) if !self.w.chain.confirmed.contains_key(&ftx.compute_txid()) => {
+						self.w.chain.mine(vec![ftx], true).map_err(|e| format!("{:?}", e)).expect("funding tx");
+						self.w.mine_empty(5);
+						self.w.sync_all();
+						self.w.pump();
+						crate::runner::witness("open-funding-confirmed");
+					},
+					_ => {
+						self.w.obs.push(Obs::Api { node: 0, what: "confirm-funding-skipped".into(), ok: true, detail: String::new() });
+					},
+				}
+			},
 			Op::FailHeld { pay } => {
 				let (to, hash) = (self.w.payments[pay].to, self.w.payments[pay].hash);
 				self.w.nodes[to].cm.fail_htlc_backwards(&hash);
@@ -562,6 +634,7 @@ impl WorldSys {
 		crate::runner::witness("crash-restart");
 		let mgr = self.w.nodes[n].durable_manager.clone();
 		self.async_on[n] = false;
+		self.held_completions[n] = false;
 		self.w.restart_node(n, &chosen, mgr, lost).map_err(|e| Failure::new("restart-deserialization", e))
 	}
 
@@ -645,6 +718,11 @@ impl WorldSys {
 				self.mgr_holds_done += 1;
 				self.held_manager[*n] = true;
 				self.w.manager_write_held[*n] = true;
+			},
+			Action::HoldCompletions(n) => {
+				self.completion_holds_done += 1;
+				self.held_completions[*n] = true;
+				crate::runner::witness("completions-held");
 			},
 			Action::ReleaseManager(n) => {
 				self.held_manager[*n] = false;
@@ -809,6 +887,16 @@ impl System for WorldSys {
 					}
 				}
 			}
+			if let (Some(c), true, true) = (self.dev.crash, self.dev.crash_after_finish_only, self.crashes_done < self.max_crashes) {
+				// between any two steps of the on-chain resolution, from any admissible durable state
+				for &i in self.crash_nodes.iter() {
+					let cands = self.w.nodes[i].persist.crash_candidates();
+					let product: u32 = cands.values().map(|v| v.len() as u32).product::<u32>().max(1);
+					for choice in 0..product.min(self.dev.crash_choices_max.unwrap_or(8)) {
+						out.push((Action::Crash(i, choice), c));
+					}
+				}
+			}
 			return out;
 		}
 		let n = self.w.nodes.len();
@@ -845,6 +933,14 @@ impl System for WorldSys {
 					}
 				}
 			}
+			if let (Some(c), true) = (self.dev.hold_completions, self.completion_holds_done < 1) {
+				for &i in self.crash_nodes.iter() {
+					// meaningful only for a node whose writes are asynchronous and all caught up at this point
+					if self.async_on[i] && !self.held_completions[i] && self.w.nodes[i].persist.outstanding().is_empty() && !self.finished {
+						out.push((Action::HoldCompletions(i), c));
+					}
+				}
+			}
 			if let (Some(c), true) = (self.dev.hold_link, self.link_holds_done < 1) {
 				for a in 0..n {
 					for b in 0..n {
@@ -852,6 +948,8 @@ impl System for WorldSys {
 							&& self.w.is_connected(a, b)
 							&& !self.held_links.contains(&(a, b))
 							&& self.dev.hold_link_only.map(|l| l == (a, b)).unwrap_or(true)
+							&& (!self.dev.hold_link_before_commit_msgs_only
+								|| matches!(self.w.links.get(&(a, b)).and_then(|q| q.front()), Some(crate::world::Wire::Commit(_)) | Some(crate::world::Wire::Raa(_))))
 						{
 							out.push((Action::HoldLink(a, b), c));
 						}
@@ -872,11 +970,11 @@ impl System for WorldSys {
 			}
 		}
 		if self.crashes_done < self.max_crashes {
-			if let Some(c) = self.dev.crash {
+			if let (Some(c), true) = (self.dev.crash, !self.dev.crash_after_finish_only || self.finished) {
 				for &i in self.crash_nodes.iter() {
 					let cands = self.w.nodes[i].persist.crash_candidates();
 					let product: u32 = cands.values().map(|v| v.len() as u32).product::<u32>().max(1);
-					for choice in 0..product.min(8) {
+					for choice in 0..product.min(self.dev.crash_choices_max.unwrap_or(8)) {
 						out.push((Action::Crash(i, choice), c));
 					}
 				}
